@@ -246,7 +246,7 @@ UNIT = Unit(
         !old(self).exhausted() && old(self).pattern.slen() > 0 ==> final(self).start > old(self).start,     // @progress
 """),
         # the same function again for the empty pattern (separate obligation name: known finding F17)
-        Fn(F, "impl Iterator for Split :: fn next", props=P, impl_as="impl Split", rename="next__empty_pattern",
+        Fn(F, "impl Iterator for Split :: fn next", props=("C15",), impl_as="impl Split", rename="next__empty_pattern",
            subst=[("Option<Self::Item>", "Option<Output>", 1),
                   ("self.input[start..].find(self.pattern.as_str())", "self.input.find_from(start, &self.pattern)", 1)],
            spec=r"""
